@@ -172,3 +172,279 @@ func writeBarrierSlices(w *bufio.Writer, s *vt.Sched, tag string) int {
 	fmt.Fprintf(w, "ENDBARRIER %s\n", rest)
 	return 1
 }
+
+// writeWakeSlicesShared: the wake-up protocol (coq/SliceWake.v) of every consumer of ONE shared
+// adapter (family dist, recover with a distributed queue): one block per worker. The adapter's
+// pending count is each consumer's "pending"; an item accepted by the adapter is a foreign
+// enqueue for every consumer already subscribed, with the adapter owing it one notification (the
+// notifier goroutine's send on that consumer's signal channel); a consumer that binds later sees
+// the count as content of the store being bound (its start() notifies); a dequeue by one
+// consumer lowers the count of the others.
+func writeWakeSlicesShared(w *bufio.Writer, s *vt.Sched, tag string) int {
+	adapter := 0
+	for _, ev := range s.Log {
+		switch {
+		case ev.Kind == "q:new":
+			return 0 // in-memory queues next to the adapter: not handled here
+		case strings.HasPrefix(ev.Kind, "ad:") && ev.Obj != 0:
+			if adapter != 0 && adapter != ev.Obj {
+				return 0
+			}
+			adapter = ev.Obj
+		}
+	}
+	if adapter == 0 {
+		return 0
+	}
+	type wk struct {
+		conc0   string
+		lines   []struct {
+			idx  int
+			text string
+		}
+		cands []struct {
+			idx, tid int
+			line     string
+		}
+		notifies []struct{ idx, tid int }
+		cur      int
+		subbed   bool
+		closed   map[int]bool
+	}
+	wks := map[int]*wk{}
+	var order []int
+	get := func(o int) *wk {
+		if o == 0 {
+			return nil
+		}
+		if x, ok := wks[o]; ok {
+			return x
+		}
+		x := &wk{closed: map[int]bool{}}
+		wks[o] = x
+		order = append(order, o)
+		return x
+	}
+	add := func(x *wk, idx int, text string) {
+		x.lines = append(x.lines, struct {
+			idx  int
+			text string
+		}{idx, text})
+	}
+	cand := func(x *wk, idx, tid int, line string) {
+		x.cands = append(x.cands, struct {
+			idx, tid int
+			line     string
+		}{idx, tid, line})
+	}
+	// pass 1: when each worker starts counting the adapter (Manager.Register) and when it
+	// subscribes, from the binding thread's Register / Subscribe / start() triple (any order)
+	type bindRec struct{ reg, sub, w int }
+	regAt := map[int]int{} // worker -> log index of its Register
+	subAt := map[int]int{} // worker -> log index of its Subscribe
+	{
+		curB := map[int]*bindRec{}
+		for idx, ev := range s.Log {
+			t := ev.Tid
+			fn := siteTab[ev.Site].Func
+			b := curB[t]
+			if b == nil {
+				b = &bindRec{-1, -1, 0}
+				curB[t] = b
+			}
+			switch {
+			case ev.Kind == "lock" && fn == "Manager.Register":
+				b.reg = idx
+			case ev.Kind == "ad:subscribe":
+				b.sub = idx
+			case ev.Kind == "enter" && fn == "worker.start":
+				b.w = ev.Obj
+			default:
+				continue
+			}
+			if b.reg >= 0 && b.sub >= 0 && b.w != 0 {
+				regAt[b.w], subAt[b.w] = b.reg, b.sub
+				curB[t] = nil
+			}
+		}
+	}
+	loopOf := map[int]int{}     // event-loop thread -> its worker
+	isLoop := map[int]bool{}
+	stale := map[int]bool{}
+	pend := 0
+	frameW := map[int]int{} // thread -> worker of its innermost worker.* frame (last seen)
+	for idx, ev := range s.Log {
+		si := siteTab[ev.Site]
+		fn := si.Func
+		t := ev.Tid
+		if t < 0 {
+			continue
+		}
+		if ev.Kind == "enter" && strings.HasPrefix(fn, "worker.") {
+			frameW[t] = ev.Obj
+			if isLoop[t] && loopOf[t] == 0 {
+				loopOf[t] = ev.Obj
+			}
+			continue
+		}
+		if ev.Kind == "start" && strings.HasPrefix(siteName(ev.Site), "worker.goEventLoop/") {
+			isLoop[t] = true
+			continue
+		}
+		actorFor := func(o int) string {
+			if isLoop[t] && loopOf[t] == o && !stale[t] {
+				return "loop"
+			}
+			return "other"
+		}
+		// a worker counts the adapter's content from its Register on
+		for o, r := range regAt {
+			if r == idx {
+				x := get(o)
+				x.subbed = true
+				if pend > 0 {
+					cand(x, idx, t, fmt.Sprintf("kforeign %d %%s", pend))
+				}
+			}
+		}
+		switch {
+		case ev.Kind == "ad:enq" && ev.Val == "1", ev.Kind == "ad:inject":
+			pend++
+			for _, o := range order {
+				if x := wks[o]; x.subbed {
+					if ev.Kind == "ad:enq" && idx > subAt[o] {
+						add(x, idx, "kforeign 1 1") // the adapter owes this consumer a notification
+					} else {
+						// counted but not announced to this consumer (it has not subscribed yet), or
+						// placed by a foreign producer: whoever placed it must notify, or the
+						// consumer's start() must still be to come
+						cand(x, idx, t, "kforeign 1 %s")
+					}
+				}
+			}
+		case ev.Kind == "ad:deq" && strings.HasPrefix(ev.Val, "1"):
+			pend--
+			mine := loopOf[t]
+			if mine == 0 {
+				mine = frameW[t]
+			}
+			for _, o := range order {
+				x := wks[o]
+				if !x.subbed {
+					continue
+				}
+				if o == mine {
+					cand(x, idx, t, "kpend "+actorFor(o)+" 0 1 %s")
+				} else {
+					add(x, idx, "kpend other 0 1 0")
+				}
+			}
+		case ev.Kind == "ad:purge":
+			n, _ := strconv.Atoi(ev.Val)
+			pend -= n
+			for _, o := range order {
+				if x := wks[o]; x.subbed && n > 0 {
+					add(x, idx, fmt.Sprintf("kpend other 0 %d 0", n))
+				}
+			}
+		case si.Field == "curProcessing" && ev.Kind == "add":
+			x := get(ev.Owner)
+			if x == nil {
+				continue
+			}
+			v, _ := strconv.Atoi(ev.Val)
+			up := "0"
+			if v == x.cur+1 {
+				up = "1"
+			}
+			x.cur = v
+			cand(x, idx, t, "kcur "+actorFor(ev.Owner)+" "+up+" %s")
+		case si.Field == "status" && strings.HasPrefix(fn, "worker.") && ev.Kind == "store":
+			if x := get(ev.Owner); x != nil {
+				cand(x, idx, t, "kstatus "+ev.Val+" %s")
+			}
+		case si.Field == "concurrency" && ev.Kind == "store":
+			x := get(ev.Owner)
+			if x == nil {
+				continue
+			}
+			if x.conc0 == "" {
+				x.conc0 = ev.Val
+				continue
+			}
+			cand(x, idx, t, "kconc "+ev.Val+" %s")
+		case ev.Kind == "trysend" && si.Field == "eventLoopSignal":
+			if x := get(ev.Owner); x != nil {
+				x.notifies = append(x.notifies, struct{ idx, tid int }{idx, t})
+				add(x, idx, "knotify")
+			}
+		case ev.Kind == "recv" && strings.HasPrefix(siteName(ev.Site), "worker.goEventLoop/") && strings.HasPrefix(ev.Val, "1"):
+			o := loopOf[t]
+			if o == 0 {
+				// the loop has not entered a method of its worker yet: find the worker by the channel
+				for _, oo := range order {
+					for _, nt := range wks[oo].notifies {
+						if s.Log[nt.idx].Obj == ev.Obj {
+							o = oo
+						}
+					}
+				}
+				loopOf[t] = o
+			}
+			if x := get(o); x != nil && !x.closed[ev.Obj] {
+				add(x, idx, "kpark")
+				add(x, idx, "krecv")
+			}
+		case ev.Kind == "close" && si.Field == "eventLoopSignal":
+			if x := get(ev.Owner); x != nil {
+				x.closed[ev.Obj] = true
+				for lt, o := range loopOf {
+					if o == ev.Owner {
+						stale[lt] = true
+					}
+				}
+				add(x, idx, "kclose")
+			}
+		case ev.Kind == "lock" && fn == "worker.Restart" && si.Field == "mx":
+			if x := get(ev.Owner); x != nil {
+				add(x, idx, "kopen")
+			}
+		}
+	}
+	k := 0
+	for _, o := range order {
+		x := wks[o]
+		if x.conc0 == "" {
+			continue
+		}
+		for i, c := range x.cands {
+			next := len(s.Log)
+			for _, d := range x.cands[i+1:] {
+				if d.tid == c.tid {
+					next = d.idx
+					break
+				}
+			}
+			n := "0"
+			for _, nt := range x.notifies {
+				if nt.tid == c.tid && nt.idx > c.idx && nt.idx < next {
+					n = "1"
+					break
+				}
+			}
+			add(x, c.idx, fmt.Sprintf(c.line, n))
+		}
+		sort.SliceStable(x.lines, func(a, b int) bool { return x.lines[a].idx < x.lines[b].idx })
+		fmt.Fprintf(w, "WAKE %s#o%d %s\n", tag, o, x.conc0)
+		for _, l := range x.lines {
+			w.WriteString("k " + l.text + "\n")
+		}
+		rest := "0"
+		if !s.Hang && !s.Livelock && len(s.Panics) == 0 {
+			rest = "1"
+		}
+		fmt.Fprintf(w, "ENDWAKE %s\n", rest)
+		k++
+	}
+	return k
+}
